@@ -21,7 +21,9 @@ PYTHONPATH=/repo /venv/bin/python "$D/demo.py" >/tmp/seed_demo.out 2>&1; DRC=$?
 echo "demo-with-change: rc=$DRC (expected non-zero) $(tail -1 /tmp/seed_demo.out | cut -c1-120)"
 cd /verif
 for P in $PIDS; do
+  cp evidence/$P.json /tmp/seed_evidence_$P.json 2>/dev/null
   ./check $P > /tmp/seed_check_$P.txt 2>&1; RC=$?
+  cp /tmp/seed_evidence_$P.json evidence/$P.json 2>/dev/null   # evidence of a run against a changed tree is not kept
   echo "check $P rc=$RC $(grep -c '^VIOLATION' /tmp/seed_check_$P.txt) violation lines; $(grep -m1 -A1 '^VIOLATION' /tmp/seed_check_$P.txt | tr '\n' ' ' | cut -c1-300)"
 done
 restore
